@@ -225,18 +225,27 @@ impl ByteCompiler<'_> {
                 self.register_allocator.dealloc(resume_kind);
                 self.register_allocator.dealloc(is_return);
 
+                // yield* 7.c.iii: the inner iterator has no `return` method: an async generator awaits
+                // the received value before returning it.
                 self.patch_jump(return_method_undefined);
-                self.patch_jump(resume_return);
-
                 if self.is_async() {
                     self.bytecode.emit_await(dst.variable());
                     self.bytecode.emit_pop();
-                } else {
-                    self.push_from_register(dst);
+                    self.pop_into_register(dst);
                 }
-                self.close_active_iterators();
 
-                self.r#return(true);
+                // yield* 7.c.viii: the inner `return` gave a `done` result: its value is returned as it
+                // is (ES2023, ecma262 PR #2819 removed the `Await(value)` of earlier editions, which
+                // cost one extra promise tick).
+                self.patch_jump(resume_return);
+
+                // The return completion leaves the generator like a `return()` received by a plain
+                // `yield`: through the handlers, so that enclosing `finally` blocks run and enclosing
+                // iteration statements and destructuring patterns close their iterators, innermost
+                // first (closing every active iterator up front ran them before the `finally` blocks
+                // and, in an async generator, awaited the close of sync for-of iterators).
+                self.bytecode.emit_set_accumulator(dst.variable());
+                self.bytecode.emit_re_throw();
 
                 self.patch_jump(throw_method_undefined);
 
